@@ -71,7 +71,7 @@ Definition new_acts (before after : env) : list act :=      (* oldest first *)
   rev_append (firstn (length (e_acts after) - length (e_acts before)) (e_acts after)) [].
 
 Definition env_of (d : disk) : env :=
-  {| e_acts := []; e_disk := d; e_fault := None; e_m := zero_metrics |}.
+  {| e_acts := []; e_disk := d; e_fault := None; e_fx := fx_none; e_m := zero_metrics |}.
 
 Definition hstep_run (c : cfg) (h : hstate) (st : hstep) : hstate :=
   match hs_mode h, st with
